@@ -6,7 +6,10 @@ nothing from /verif. Round 1 is the plain request, round 2 adds HARD MODE (rare 
 triggers), round 3 asks for a different kind of subtlety (secondary clauses, alternative entry
 points, cumulative histories)."""
 import json, os, sys
-rnd = int(sys.argv[1]) if len(sys.argv) > 1 else 1
+if len(sys.argv) > 1 and sys.argv[1] == "benign":
+    rnd = 0
+else:
+    rnd = int(sys.argv[1]) if len(sys.argv) > 1 else 1
 R = "" if rnd == 1 else str(rnd)
 HERE = os.path.dirname(os.path.dirname(os.path.abspath(__file__)))
 props = {json.loads(l)['id']: json.loads(l) for l in open(os.path.join(HERE, 'properties.jsonl'))}
@@ -34,7 +37,46 @@ Find something of a DIFFERENT kind. Directions that tend to be under-tested:
 The change must still be a plausible developer slip / refactoring / optimisation that a reviewer could wave through (no `if input == magic`). Your demonstration test must construct the trigger deterministically and show the property's statement being violated.
 '''
 os.makedirs('/tmp/seedwork', exist_ok=True)
+BENIGN = """You are a careful Rust engineer helping to evaluate a test oracle for FALSE ALARMS. The oracle is a runtime monitor that drives the public API of the OMMX Rust SDK with many generated inputs and checks ONE stated semantic property. A good oracle must stay silent on any code change that keeps the property true. Your job: produce realistic BEHAVIOUR-PRESERVING CHANGES ("benign refactorings") of the code the property is anchored in — changes after which the property STILL HOLDS for every input, but which alter as much as possible of what the property does NOT promise.
+
+## Your workspace
+- A private git worktree of the repository: {wt} (detached HEAD). Work ONLY there and in your output directory {out} (create it). Do not touch /repo or any other directory. No network is available; always pass --offline to cargo.
+- The Rust SDK is the crate rust/ommx (source in rust/ommx/src). The existing test suite is run with:
+  `cd {wt} && cargo nextest run --workspace --no-fail-fast --offline` (fallback: `cargo test --workspace --no-fail-fast --offline`). All 102 tests must still pass with your change applied.
+
+## The property that must KEEP HOLDING
+```json
+{text}
+```
+
+## What to deliver: TWO independent benign changes (A and B)
+Each is a plausible refactoring / optimisation / clean-up a maintainer could merge, in the functions named by the anchors (rust/ommx/src), that keeps the property true by its literal statement yet changes observable INCIDENTAL behaviour. Good directions:
+- the ORDER of things the statement does not order: terms inside a returned function, entries of a returned list (constraints, decision variables, removed constraints, evaluated constraints), where a newly created variable/constraint/parameter is inserted (front, sorted position, end), iteration order of maps;
+- the REPRESENTATION of an equal result: a linear result returned as a Quadratic/Polynomial message or vice versa where the statement only fixes the polynomial; an equivalent but differently scaled/arranged equation (e.g. multiply an equality by a positive constant, flip the sign of both sides of an equality, negative weights with a shifted constant) where only the solution set / value set is promised; different but equally valid fresh IDs; zero terms dropped or kept;
+- the ALGORITHM: a different evaluation/summation order only where the statement allows rounding; more or fewer passes of a fixed-point loop; a different data structure; caching;
+- ERROR REPORTING beyond what is promised: different wording of error messages, a different (still appropriate) error variant where the statement only says "is an error"/"is rejected", checking preconditions in a different order when several are violated at once;
+- extra, harmless work: additional derived metadata the statement does not forbid (e.g. a name or description on a generated variable), defensive copies.
+Do NOT change anything the statement promises. If in doubt whether the statement promises something, do not touch it (or say so in meta.json under "doubt").
+For each of A and B:
+1. The source change (ideally 3-30 lines).
+2. A short argument (meta.json "why_property_still_holds") going clause by clause through the statement.
+3. A demonstration test file (it will live at rust/ommx/tests/{demo}_<a|b>.rs, public API only) with two kinds of `#[test]`: (i) tests asserting the PROPERTY on a few concrete inputs — these must pass both without and with your change; (ii) one test named `incidental_difference` that PASSES on the unmodified code and FAILS with your change, pinning the incidental behaviour you altered (e.g. the exact order of terms, the exact error text, the position of the new variable). Verify both directions yourself.
+4. Confirm the full existing suite still passes with the change applied (move the demo away while running it, or ignore its expected `incidental_difference` failure).
+
+## Output (in {out})
+- `A/patch.diff`, `B/patch.diff`: `git diff` of ONLY the source change, applicable with `git apply` on a clean checkout of the same commit.
+- `A/demo.rs`, `B/demo.rs`.
+- `A/meta.json`, `B/meta.json`: {{"property": "{pid}", "summary": one sentence, "incidental_behaviour_changed": one or two sentences, "why_property_still_holds": a few sentences, "doubt": null or what you are unsure about, "files_changed": [...], "existing_suite": what you observed, "property_tests_with_change": "pass", "incidental_difference_with_change": "fail"}}.
+Leave the worktree CLEAN at the end (`git checkout -- . && git clean -fd` except target/).
+
+## Rules
+- No new dependencies. Do not edit existing tests. Do not break other workspace members. A and B must differ in kind.
+- Your final message: for A and B, three lines (what changed, which incidental behaviour differs, why the property still holds) and the file paths."""
 for pid, p in props.items():
+    if rnd == 0:
+        text = json.dumps({k: p[k] for k in ['id', 'title', 'statement', 'quantifier', 'anchors']}, indent=1)
+        open(f'/tmp/seedwork/prompt-{pid}-benign.txt', 'w').write(BENIGN.format(wt=f'/tmp/benign-{pid}', out=f'/tmp/benign-{pid}-out', demo=f'benign_demo_{pid.lower()}', text=text, pid=pid))
+        continue
     text = json.dumps({k: p[k] for k in ['id', 'title', 'statement', 'quantifier', 'why_tests_cant', 'anchors']}, indent=1)
     wt, out, demo = f'/tmp/seed{R}-{pid}', f'/tmp/seed{R}-{pid}-out', f'seeded_demo{R}_{pid.lower()}'
     hard = {1: '', 2: HARD2, 3: HARD3}[rnd]
@@ -67,4 +109,4 @@ Leave the worktree CLEAN at the end (`git checkout -- . && git clean -fd` except
 - If an attempt makes an existing test fail, that change is not acceptable — find a subtler one.
 - Your final message: for A and B, a 3-line description (what was changed, why existing tests do not notice, what input exposes it) and the paths of the delivered files.'''
     open(f'/tmp/seedwork/prompt-{pid}-r{rnd}.txt', 'w').write(prompt)
-print('wrote', len(props), 'prompts for round', rnd)
+print('wrote', len(props), 'prompts for round', rnd if rnd else 'benign')
